@@ -563,8 +563,11 @@ fn part_repair(raw: &RawKey, rep: &mut Report, args: &Args) {
         let mut model = BTreeMap::new();
         for v in 0..2 {
             let repo = env.open_ids().expect("open");
-            _ = backup_with(&repo, &MemSource::new("r", crate::c02::source(v)), &format!("s{v}"), T0 + 1000 + v as i64, &force()).expect("backup");
-            _ = model.insert(format!("s{v}"), model_tree("r", &crate::c02::source(v)));
+            // (with an empty directory sorting after all others: its tree is what a lost tree is replaced by)
+            let mut t = crate::c02::source(v);
+            t.insert("zz_empty", Entry::dir(T0 + 9));
+            _ = backup_with(&repo, &MemSource::new("r", t.clone()), &format!("s{v}"), T0 + 1000 + v as i64, &force()).expect("backup");
+            _ = model.insert(format!("s{v}"), model_tree("r", &t));
         }
         (env, model)
     };
@@ -638,10 +641,16 @@ fn part_repair(raw: &RawKey, rep: &mut Report, args: &Args) {
                 }
                 let n_before = env.store().list(FileType::Snapshot).len();
                 let ids_before: BTreeSet<String> = env.store().ids(FileType::Snapshot).iter().map(hex_id).collect();
+              // the repair is run twice: the second run meets the snapshots the first one wrote (and, without
+              // delete, the damaged originals again)
+              for round in 0..2 {
                 let repo = es("open", env.open_full())?;
                 let snaps = es("snapshots", repo.get_all_snapshots())?;
                 es("repair", repo.repair_snapshots(&RepairSnapshotsOptions::default().delete(delete), snaps, false))?;
                 rep.inc("transitions");
+                if round == 1 {
+                    rep.inc("repeated_repairs");
+                }
                 // every snapshot that is new must be completely readable; files without the suffix have their original content
                 let got = crate::c03::read_state_ids(&env.store()).map_err(|e| ("C12/repair/read".to_string(), e))?;
                 let mut new_snaps = 0;
@@ -682,9 +691,10 @@ fn part_repair(raw: &RawKey, rep: &mut Report, args: &Args) {
                 if !delete && env.store().list(FileType::Snapshot).len() < n_before {
                     return Err(("C12/repair/original-removed-without-delete".into(), "a snapshot was removed although delete was not requested".into()));
                 }
-                if new_snaps > 0 {
+                if new_snaps > 0 && round == 0 {
                     rep.inc("repairs_with_new_snapshots");
                 }
+              }
                 _ = rep.distinct("state", &(format!("{dmg:?}"), delete));
                 let _: Option<LNode> = None;
                 Ok(())
@@ -701,7 +711,7 @@ fn part_repair(raw: &RawKey, rep: &mut Report, args: &Args) {
 pub fn run(args: &Args, rep: &mut Report) {
     let raw = RawKey::from_master(&master_key());
     std::panic::set_hook(Box::new(|_| {}));
-    rep.set_meta("bounds", json!("copy: 2 source repositories (one with tree/data id collisions) x 5 destinations (empty, holding some blobs, holding the same snapshots after the loss of all data packs, other key + repo v1 + one-blob packs, other key + compression 19 + default chunker) x every non-empty subset of 3 snapshots; merge: all pairs (and triples over a subset) of trees with entries a,b of kind {absent, file v1, file v2, symlink, dir with sub-entries} x 3 orderings; rewrite: 4 trees (one with twin directories sharing their tree blobs) x every glob set of size <= 2 over 6 exclude globs (two anchored at one twin) x forget; repair: undamaged + every single pack removed + every single blob entry dropped from the index, x delete"));
+    rep.set_meta("bounds", json!("copy: 2 source repositories (one with tree/data id collisions) x 5 destinations (empty, holding some blobs, holding the same snapshots after the loss of all data packs, other key + repo v1 + one-blob packs, other key + compression 19 + default chunker) x every non-empty subset of 3 snapshots; merge: all pairs (and triples over a subset) of trees with entries a,b of kind {absent, file v1, file v2, symlink, dir with sub-entries} x 3 orderings; rewrite: 4 trees (one with twin directories sharing their tree blobs) x every glob set of size <= 2 over 6 exclude globs (two anchored at one twin) x forget; repair: undamaged + every single pack removed + every single blob entry dropped from the index, x delete, each repaired twice in a row"));
     if args.replay.is_some() {
         rep.note("replay re-runs the complete check (all parts are small)");
     }
